@@ -231,23 +231,44 @@ theorem getValueAt_fresh (w : World) (top : Str) (p : KeyPath) (v : PV)
 
 /-! ### `resolve_foreign_key` -/
 
-def ResFresh (orc : Oracle) (w : World) (dflt : Str) (fuel : Nat) : Prop :=
+/-- the fallback walk only reads the world: what it returns is the value stored at `(src, target)` -/
+theorem findDefining_stored (w : World) (fb : Fallbacks) : ∀ (fuel : Nat) (vis : List Str) (cur : Str) (t : KeyPath)
+    (src : Str) (v : PV), findDefining w fb fuel vis cur t = .ok (src, v) →
+      w.getValueAt src t = .ok (some v) ∧ v ≠ .dflt
+  | 0, vis, cur, t, src, v, h => by simp [findDefining] at h
+  | fuel + 1, vis, cur, t, src, v, h => by
+    rw [findDefining] at h
+    split at h
+    · simp at h
+    · simp at h
+    · split at h
+      · simp at h
+      · exact findDefining_stored w fb fuel _ _ t src v h
+    · rename_i v0 hne hval
+      simp only [Res.ok.injEq, Prod.mk.injEq] at h
+      obtain ⟨rfl, rfl⟩ := h
+      exact ⟨hval, fun e => hne e⟩
+    · split at h
+      · simp at h
+      · exact findDefining_stored w fb fuel _ _ t src v h
+
+def ResFresh (orc : Oracle) (w : World) (dflt : Fallbacks) (fuel : Nat) : Prop :=
   (∀ vis phys top pv v, resolvePV orc w dflt fuel vis phys top pv = .ok v → FreshS pv = true → FreshS v = true) ∧
-  (∀ vis phys top target args mj v, resolveNode orc w dflt fuel vis phys top target args mj = .ok v →
+  (∀ vis phys top target args v, resolveNode orc w dflt fuel vis phys top target args = .ok v →
     FreshSK args = true → FreshS v = true) ∧
   (∀ vis phys top l l', resolveL orc w dflt fuel vis phys top l = .ok l' → FreshSL l = true → FreshSL l' = true) ∧
   (∀ vis phys top l l', resolveB orc w dflt fuel vis phys top l = .ok l' → FreshSB l = true → FreshSB l' = true) ∧
   (∀ vis phys top l l', resolveF orc w dflt fuel vis phys top l = .ok l' → FreshSF l = true → FreshSF l' = true) ∧
   (∀ vis phys top l l', resolveArgs orc w dflt fuel vis phys top l = .ok l' → FreshSK l = true → FreshSK l' = true)
 
-theorem resolve_fresh (orc : Oracle) (w : World) (dflt : Str) (hw : WorldFresh w.nss) :
+theorem resolve_fresh (orc : Oracle) (w : World) (dflt : Fallbacks) (hw : WorldFresh w.nss) :
     ∀ fuel, ResFresh orc w dflt fuel := by
   intro fuel
   induction fuel with
   | zero =>
     refine ⟨?_, ?_, ?_, ?_, ?_, ?_⟩
     · intro vis phys top pv v h; simp [resolvePV] at h
-    · intro vis phys top target args mj v h; simp [resolveNode] at h
+    · intro vis phys top target args v h; simp [resolveNode] at h
     · intro vis phys top l l' h; simp [resolveL] at h
     · intro vis phys top l l' h; simp [resolveB] at h
     · intro vis phys top l l' h; simp [resolveF] at h
@@ -267,7 +288,7 @@ theorem resolve_fresh (orc : Oracle) (w : World) (dflt : Str) (hw : WorldFresh w
         | notSet target args =>
           simp only [resolvePV] at h
           simp only [FreshS] at hf
-          exact iNode _ _ _ _ _ _ _ h hf
+          exact iNode _ _ _ _ _ _ h hf
       | comp k inner =>
         simp only [resolvePV] at h
         simp only [FreshS] at hf
@@ -299,16 +320,13 @@ theorem resolve_fresh (orc : Oracle) (w : World) (dflt : Str) (hw : WorldFresh w
         simp only [Res.ok.injEq] at h; subst h
         simp only [FreshS, Bool.and_eq_true]
         exact ⟨iPV _ _ _ _ _ ho hf.1, iF _ _ _ _ _ hfs hf.2⟩
-    · intro vis phys top target args mj v h ha
+    · intro vis phys top target args v h ha
       simp only [resolveNode] at h
       split at h
       · simp at h
       · simp at h
-      · simp at h
-      · split at h
-        · simp at h
-        · exact iNode _ _ _ _ _ _ _ h ha
-      · rename_i value _ hval
+      · rename_i src value hfd
+        have hval := (findDefining_stored w dflt _ _ _ _ _ _ hfd).1
         split at h
         · simp at h
         · split at h <;> try (simp at h; done)
@@ -425,7 +443,7 @@ theorem setValueAt_fresh (w : World) (top : Str) (p : KeyPath) (v : PV) (hw : Wo
     · exact this
   · exact hw ns0 h0 l hl
 
-theorem resolveAt_fresh (orc : Oracle) (dflt : Str) (fuel : Nat) (locale : Str) (p : KeyPath) (w w' : World) (b : Bool)
+theorem resolveAt_fresh (orc : Oracle) (dflt : Fallbacks) (fuel : Nat) (locale : Str) (p : KeyPath) (w w' : World) (b : Bool)
     (h : resolveAt orc dflt fuel locale p w = .ok (w', b)) (hw : WorldFresh w.nss) : WorldFresh w'.nss := by
   unfold resolveAt at h
   split at h
@@ -442,7 +460,7 @@ theorem resolveAt_fresh (orc : Oracle) (dflt : Str) (fuel : Nat) (locale : Str) 
       exact setValueAt_fresh w _ _ _ hw
         ((resolve_fresh orc w dflt hw fuel).1 _ _ _ _ _ hr (getValueAt_fresh w _ _ _ hv hw))
 
-theorem resolveAll_fresh (orc : Oracle) (dflt : Str) (fuel : Nat) :
+theorem resolveAll_fresh (orc : Oracle) (dflt : Fallbacks) (fuel : Nat) :
     ∀ (paths : List (Str × KeyPath)) (w w' : World), resolveAll orc dflt fuel paths w = .ok w' →
       WorldFresh w.nss → WorldFresh w'.nss
   | [], w, w', h, hw => by simp [resolveAll] at h; rw [← h]; exact hw
